@@ -32,6 +32,8 @@ type Engine struct {
 	fnByName  map[string]*ssa.Function
 	keySort   map[string]string
 	keyKinds  map[string]keyKind
+	guards    map[string]string // structSort.field -> mutex field
+	guardWritesOnly map[string]bool
 	mapKeySort map[string]string
 	mapZero    map[string]string
 	typeTags  map[string]int
@@ -128,6 +130,22 @@ func NewEngine(repo string, patterns []string, specPaths []string) (*Engine, err
 	}
 	for _, l := range e.spec.Lemmas {
 		e.lemmas[l.Name] = l
+	}
+	e.guards = map[string]string{}
+	e.guardWritesOnly = map[string]bool{}
+	for _, g := range e.spec.Guards {
+		i := strings.Index(g.Field, ".")
+		if i < 0 {
+			return nil, fmt.Errorf("guarded_by %s: want Type.field", g.Field)
+		}
+		ty, err := e.evalType(g.Pkg, g.Field[:i])
+		if err != nil {
+			return nil, err
+		}
+		e.guards[e.sortOf(ty)+"."+g.Field[i+1:]] = g.Mutex
+		if g.WritesOnly {
+			e.guardWritesOnly[e.sortOf(ty)+"."+g.Field[i+1:]] = true
+		}
 	}
 	for _, n := range e.spec.OpaqueNames {
 		if s := e.specFns[n]; s != nil {
